@@ -340,38 +340,77 @@ class Schema:
 # ---------------------------------------------------------------------------------------------
 
 
-class Field:
-    __slots__ = ("name", "alias", "args", "sel")
+def _dirs(directives):
+    """directives: tuple of (kind, variable) with kind in {"skip", "include"}: `@skip(if: $variable)`."""
+    return tuple(tuple(d) for d in directives)
 
-    def __init__(self, name, sel=None, alias=None, args=()):
+
+def render_directives(directives):
+    return "".join(" @%s(if: $%s)" % d for d in directives)
+
+
+class Field:
+    __slots__ = ("name", "alias", "args", "sel", "directives")
+
+    def __init__(self, name, sel=None, alias=None, args=(), directives=()):
         self.name, self.alias, self.args, self.sel = name, alias, tuple(args), (None if sel is None else tuple(sel))
+        self.directives = _dirs(directives)
 
     @property
     def key(self):
         return self.alias or self.name
 
     def canon(self):
-        return ("F", self.name, self.alias, self.args, None if self.sel is None else tuple(s.canon() for s in self.sel))
+        base = ("F", self.name, self.alias, self.args, None if self.sel is None else tuple(s.canon() for s in self.sel))
+        return base + (self.directives,) if self.directives else base
 
 
 class Inline:
-    __slots__ = ("on", "sel")
+    __slots__ = ("on", "sel", "directives")
 
-    def __init__(self, on, sel):
+    def __init__(self, on, sel, directives=()):
         self.on, self.sel = on, tuple(sel)
+        self.directives = _dirs(directives)
 
     def canon(self):
-        return ("I", self.on, tuple(s.canon() for s in self.sel))
+        base = ("I", self.on, tuple(s.canon() for s in self.sel))
+        return base + (self.directives,) if self.directives else base
 
 
 class Spread:
-    __slots__ = ("name",)
+    __slots__ = ("name", "directives")
 
-    def __init__(self, name):
+    def __init__(self, name, directives=()):
         self.name = name
+        self.directives = _dirs(directives)
 
     def canon(self):
-        return ("S", self.name)
+        return ("S", self.name, self.directives) if self.directives else ("S", self.name)
+
+
+def skipped(node, env):
+    """spec 6.3.2: is the node left out under the variable values `env` (name -> bool)?"""
+    for kind, var in node.directives:
+        if kind == "skip" and env.get(var):
+            return True
+        if kind == "include" and not env.get(var):
+            return True
+    return False
+
+
+def directive_variables(doc):
+    out = []
+
+    def walk(sel):
+        for s in sel or ():
+            for _, var in s.directives:
+                if var not in out:
+                    out.append(var)
+            if not isinstance(s, Spread):
+                walk(s.sel)
+    for d in doc.defs:
+        walk(d.sel)
+    return out
 
 
 def TN():
@@ -419,14 +458,15 @@ def render_sel(sel, ind=1):
             line = pad + ((s.alias + ": ") if s.alias else "") + s.name
             if s.args:
                 line += "(" + ", ".join("%s: %s" % (a, v) for a, v in s.args) + ")"
+            line += render_directives(s.directives)
             if s.sel is not None:
                 line += " {\n" + render_sel(s.sel, ind + 1) + pad + "}"
             out.append(line + "\n")
         elif isinstance(s, Inline):
-            head = pad + "..." + ((" on " + s.on) if s.on else "")
+            head = pad + "..." + ((" on " + s.on) if s.on else "") + render_directives(s.directives)
             out.append(head + " {\n" + render_sel(s.sel, ind + 1) + pad + "}\n")
         else:
-            out.append(pad + "..." + s.name + "\n")
+            out.append(pad + "..." + s.name + render_directives(s.directives) + "\n")
     return "".join(out)
 
 
@@ -553,15 +593,18 @@ def validate(schema, doc):
 # ---------------------------------------------------------------------------------------------
 
 
-def collect_fields(schema, frags, runtime_type, sel, visited=None, out=None, parents=None, static_type=None):
+def collect_fields(schema, frags, runtime_type, sel, visited=None, out=None, parents=None, static_type=None, env=None):
     """spec 6.3.2 CollectFields: ordered map response key -> list of Field nodes. When `parents` (a dict) is
     given, id(node) -> the type whose selection set contains the node is recorded in it: that type, not the
-    runtime type, determines the Rust type the generator gives the field."""
+    runtime type, determines the Rust type the generator gives the field. With `env` (variable values) the
+    `@skip` / `@include` directives are evaluated; without it every node counts."""
     if out is None:
         out = OrderedDict()
     if visited is None:
         visited = set()
     for s in sel:
+        if env is not None and s.directives and skipped(s, env):
+            continue
         if isinstance(s, Field):
             out.setdefault(s.key, []).append(s)
             if parents is not None:
@@ -574,10 +617,10 @@ def collect_fields(schema, frags, runtime_type, sel, visited=None, out=None, par
             if f is None:
                 continue
             if runtime_type in schema.possible_types(f.on):
-                collect_fields(schema, frags, runtime_type, f.sel, visited, out, parents, f.on)
+                collect_fields(schema, frags, runtime_type, f.sel, visited, out, parents, f.on, env)
         else:
             if s.on is None or runtime_type in schema.possible_types(s.on):
-                collect_fields(schema, frags, runtime_type, s.sel, visited, out, parents, s.on or static_type)
+                collect_fields(schema, frags, runtime_type, s.sel, visited, out, parents, s.on or static_type, env)
     return out
 
 
@@ -658,6 +701,7 @@ class Executor:
         self.frags = doc.frags
         self.list_lengths = list_lengths
         self.scalar_values = scalar_values or SCALAR_VALUES
+        self.env = {}
 
     def leaf_values(self, tn):
         k = self.schema.kind(tn)
@@ -669,10 +713,12 @@ class Executor:
 
     def build_payload(self, op, ch):
         rt = root_type(self.schema, op)
+        # the values of the Boolean variables the document's @skip / @include directives read
+        self.env = {v: ch(2, "$" + v) == 1 for v in directive_variables(self.doc)}
         return self._object(rt, op.sel, ch, op.name, rt, 0)
 
     def _object(self, runtime_type, sel, ch, path, static_type, depth):
-        fields = collect_fields(self.schema, self.frags, runtime_type, sel)
+        fields = collect_fields(self.schema, self.frags, runtime_type, sel, env=self.env)
         out = OrderedDict()
         for key, nodes in fields.items():
             if nodes[0].name == "__typename":
